@@ -1,4 +1,167 @@
-(* placeholder while the correspondence is being validated *)
+(* C12 — Responses reach exactly their requests; connection failure fails all waiters.
+   Public statements only.  The executable model of AIOKafkaConnection's send / reader task /
+   _handle_frame / close is model/C12_Conn.v; NextCorr.v is regenerated from
+   AIOKafkaConnection._next_correlation_id on every run; proofs are in proof/C12_proof.v.
+
+   Every theorem holds for every body decoder [decodes : api -> bytes -> bool] (the model's
+   stand-in for RESPONSE_TYPE.decode, property C11) and every initial value of the counter.
+
+   Vocabulary: the log of a state records every resolution of a waiter's future, newest first,
+   as (waiter id, the correlation id its request was sent with, quirk flag, outcome);
+   [outcome s id = None] means waiter id is still pending. *)
 From Coq Require Import ZArith List Bool.
-From Verif Require Import Imp NextCorr C12_Conn.
-Theorem c12_placeholder : True. Proof. exact I. Qed.
+From Verif Require Import Imp NextCorr C12_Conn C12_proof.
+Import ListNotations.
+Open Scope Z_scope.
+
+(* 1. Fragmentation is irrelevant: feeding the chunks one by one or their concatenation at
+   once ends in the same state (same waiter outcomes, same queue, same unread bytes), from every
+   state in which the reader task has consumed all complete frames — in particular after any
+   prefix of events from the initial state.  Chunks may split the 4-byte size, the header, the
+   tagged fields or the body anywhere; they may be empty. *)
+Theorem c12_chunking_irrelevant :
+  forall (decodes : Z -> bytes -> bool) (cs : list bytes) (s : state),
+  drained s -> run decodes s (map Feed cs) = run decodes s [Feed (concat cs)].
+Proof. exact chunking_irrelevant. Qed.
+Print Assumptions c12_chunking_irrelevant.
+
+Theorem c12_chunking_irrelevant_reachable :
+  forall decodes c0 (pre : list event) (cs : list bytes),
+  run decodes (init c0) (pre ++ map Feed cs) = run decodes (init c0) (pre ++ [Feed (concat cs)]).
+Proof. exact chunking_reachable. Qed.
+Print Assumptions c12_chunking_irrelevant_reachable.
+
+(* 2. Exact delivery.  STRICT statement: whenever a waiter's future is resolved with a response
+   frame, the correlation id in the frame's header is the one the waiter's request was sent
+   with.  The faithful model REFUTES it: _handle_frame contains the "Kafka 0.8.2 quirk" —
+   a FindCoordinatorRequest_v0 waiter accepts a response carrying correlation id 0. *)
+Definition c12_exact_delivery_full : Prop := exact_delivery_strict.
+
+Theorem c12_exact_delivery_refuted : ~ c12_exact_delivery_full.
+Proof. exact exact_delivery_strict_refuted. Qed.
+Print Assumptions c12_exact_delivery_refuted.
+
+(* the witness: counter 4, one FindCoordinator v0 request (sent with id 5), one frame with id 0:
+   the waiter gets the frame and the connection stays open *)
+Example c12_quirk_witness :
+  log (run (fun _ _ => true) (init 4) quirk_trace) = [mkL 0 (Some 5) true (Resp [0; 0; 0; 0; 0; 0])]
+  /\ open (run (fun _ _ => true) (init 4) quirk_trace) = true.
+Proof. exact quirk_witness. Qed.
+
+(* What does hold, for every event sequence (sends of any kind, any chunks, timeouts,
+   cancellations, EOF, reset, close, in any order):
+   (a) a waiter resolved with a frame: the frame's header parses and its correlation id equals
+       the waiter's — the only exception being a quirk waiter (FindCoordinator v0) whose own id
+       is not 0 receiving id 0;
+   (b) responses are delivered in request order (waiter ids of delivered entries increase);
+   (c) no waiter's future is ever resolved twice.
+   Missing w.r.t. the full statement: exactly the quirk disjunct of (a). *)
+Theorem c12_exact_delivery_partial :
+  forall decodes c0 evs,
+  let s := run decodes (init c0) evs in
+  (forall l, In l (log s) -> resp_ok l) /\ dsorted (log s) /\ NoDup (ids_l (log s)).
+Proof. exact exact_delivery. Qed.
+Print Assumptions c12_exact_delivery_partial.
+
+(* (a) spelled out for waiters that are not FindCoordinator v0 *)
+Corollary c12_exact_delivery_nonquirk :
+  forall decodes c0 evs l f,
+  In l (log (run decodes (init c0) evs)) -> l_quirk l = false -> l_why l = Resp f ->
+  exists flex rc body, parse_header flex f = Some (rc, body) /\ l_corr l = Some rc.
+Proof.
+  intros decodes c0 evs l f Hin Hq Hw.
+  destruct (exact_delivery decodes c0 evs) as [H _].
+  destruct (H l Hin f Hw) as (flex & rc & body & Hp & [Hc|[Hq' _]]).
+  - exists flex, rc, body. split; assumption.
+  - rewrite Hq in Hq'. discriminate.
+Qed.
+
+(* send() takes the next id from the translated _next_correlation_id and queues it *)
+Theorem c12_send_assigns :
+  forall decodes s api flex quirk,
+  open s = true ->
+  let s' := step decodes s (Send api flex quirk) in
+  corr s' = NextCorr.post (corr s) /\
+  reqs s' = reqs s ++ [mkE (nsent s) (Some (NextCorr.post (corr s))) api flex quirk false] /\
+  NextCorr.py (corr s) = Ok (NextCorr.post (corr s)).
+Proof. exact send_assigns. Qed.
+
+(* 3. Failure fails all.  In every reachable state with the connection closed the queue is
+   empty and NO waiter is pending: each of the nsent waiters has an outcome.  EOF, reset and
+   close() close; so do an unsolicited frame, an unparsable header, a correlation mismatch
+   (the head waiter gets CorrelationIdError, nobody gets the frame), an undecodable body for
+   a pending head, and a negative size prefix.  Closed is absorbing.  The futures failed by
+   close get KafkaConnectionError (ConnErr), never a response. *)
+Theorem c12_failure_fails_all :
+  forall decodes c0 evs,
+  let s := run decodes (init c0) evs in
+  open s = false -> reqs s = [] /\ forall id, (id < nsent s)%nat -> outcome s id <> None.
+Proof. exact failure_fails_all. Qed.
+Print Assumptions c12_failure_fails_all.
+
+Theorem c12_failures_close :
+  forall decodes s,
+  (open (step decodes s Eof) = false /\ open (step decodes s Reset) = false /\
+   open (step decodes s Close) = false) /\
+  (forall f, reqs s = [] -> open (handle decodes s f) = false) /\
+  (forall e tl c f, reqs s = e :: tl -> e_corr e = Some c -> parse_header (e_flex e) f = None ->
+     open (handle decodes s f) = false) /\
+  (forall e tl c f rc body, open s = true -> reqs s = e :: tl -> e_corr e = Some c ->
+     parse_header (e_flex e) f = Some (rc, body) -> rc <> c ->
+     (e_quirk e = false \/ c = 0 \/ rc <> 0) ->
+     open (handle decodes s f) = false /\
+     (e_done e = false -> In (log_of e CorrErr) (log (handle decodes s f))) /\
+     (forall l, In l (log (handle decodes s f)) -> In l (log s) \/ delivered l = false)) /\
+  (forall e tl c f rc body, reqs s = e :: tl -> e_corr e = Some c ->
+     parse_header (e_flex e) f = Some (rc, body) -> rc = c -> e_done e = false ->
+     decodes (e_api e) body = false -> open (handle decodes s f) = false) /\
+  (forall n, open s = true -> extract (rbuf s) = BadSize -> open (drain decodes (S n) s) = false) /\
+  (forall ev, open s = false -> open (step decodes s ev) = false) /\
+  (forall c l, In l (log (close c s)) ->
+     In l (log s) \/ (l_why l = ConnErr c /\
+                      exists e, In e (reqs s) /\ e_done e = false /\ l_id l = e_id e)).
+Proof.
+  intros decodes s.
+  split; [exact (closing_events decodes s)|].
+  split; [exact (handle_unsolicited decodes s)|].
+  split; [exact (handle_bad_header decodes s)|].
+  split; [exact (handle_mismatch decodes s)|].
+  split; [exact (handle_bad_body decodes s)|].
+  split; [intros n; exact (drain_bad_size decodes n s)|].
+  split; [exact (closed_stays_closed decodes s)|].
+  intros c l. exact (close_log c s l).
+Qed.
+Print Assumptions c12_failures_close.
+
+(* 4. Correlation ids — stated on the TRANSLATED function NextCorr (conn.py:583-585):
+   it never raises, its result is (c + 1) mod 2^31 and lies in [0, 2^31); k successive calls
+   from c give (c + k) mod 2^31; two ids handed out fewer than 2^31 calls apart differ — so
+   with fewer than 2^31 requests sent since the oldest outstanding one, a new id is distinct
+   from every outstanding id, wrap included.  In the model the counter stays in range. *)
+Theorem c12_corr_range :
+  (forall c, NextCorr.py c = Ok (NextCorr.post c) /\ NextCorr.post c = (c + 1) mod 2147483648 /\
+             0 <= NextCorr.post c < 2147483648) /\
+  (forall k c, 0 <= c < 2147483648 -> iter_corr k c = (c + Z.of_nat k) mod 2147483648) /\
+  (forall c j k, 0 <= c < 2147483648 -> (j < k)%nat -> Z.of_nat k - Z.of_nat j < 2147483648 ->
+                 iter_corr j c <> iter_corr k c) /\
+  (forall decodes evs s, 0 <= corr s < 2147483648 -> 0 <= corr (run decodes s evs) < 2147483648).
+Proof.
+  split; [intros c; exact (conj (nextcorr_py c) (conj (nextcorr_post c) (nextcorr_range c)))|].
+  split; [exact iter_corr_closed|].
+  split; [exact iter_corr_distinct|].
+  exact corr_range_run.
+Qed.
+Print Assumptions c12_corr_range.
+
+(* the wrap itself *)
+Example c12_wrap : NextCorr.post 2147483647 = 0 /\ iter_corr 3 2147483646 = 1.
+Proof. split; reflexivity. Qed.
+
+(* non-vacuity: a pipelined exchange with a flexible header split in the middle of the size
+   prefix is delivered in order *)
+Example c12_example :
+  map (fun l => (l_id l, l_corr l)) (log (run (fun _ _ => true) (init 7)
+     [Send 0 false false; Send 1 true false;
+      Feed [0; 0]; Feed [0; 6; 0; 0; 0; 8; 1; 2; 0; 0; 0; 6; 0; 0; 0; 9; 0]; Feed [5]]))
+  = [(1%nat, Some 9); (0%nat, Some 8)].
+Proof. vm_compute. reflexivity. Qed.
